@@ -478,7 +478,11 @@ class _ThreePhaseEvent:
         phase, callable, args, kwargs = handle
         if phase != "before":
             return self.removeTrigger_BASE(handle)
-        if (callable, args, kwargs) in self.finishedBefore:
+        if (callable, args, kwargs) in self.before:
+            # Still waiting to run (perhaps registered again after an equal
+            # trigger has already run in this firing).
+            self.before.remove((callable, args, kwargs))
+        elif (callable, args, kwargs) in self.finishedBefore:
             warnings.warn(
                 "Removing already-fired system event triggers will raise an "
                 "exception in a future version of Twisted.",
